@@ -101,6 +101,14 @@ def conclude(pid, tier, level, tally, coverage, assumptions, t0,
     coverage["known_findings_seen"] = sorted(seen_known)
     coverage["new_violation_fingerprints"] = sorted(new)[:20]
     coverage["violating_executions_total"] = tally.c.get("violations_total", 0)
+    if tally.c.get("time_cap_hit"):
+        coverage["exhaustive"] = False
+        coverage["time_cap"] = (
+            "wall-clock cap of the thorough tier hit (VERIF_THOROUGH_BUDGET_S, default 3000 s): "
+            "%d work chunks completed, %d not started; chunks are dealt round-robin in list "
+            "order, so every family listed before the cut was covered completely and the "
+            "counts above are those of the completed chunks only"
+            % (tally.c.get("chunks_done", 0), tally.c.get("chunks_not_started", 0)))
     if tally.c.get("stopped_after_violation_budget") or \
             tally.c.get("aborted_after_runaway_executions"):
         coverage["exhaustive"] = False
